@@ -29,6 +29,9 @@ fn cfg_for(format: Format, input: &B, spec: &gen::CapSpec, policy: crate::policy
 
 impl Prop for ConfigDiff {
     type Case = Case;
+    fn input_bytes<'a>(&self, c: &'a mut Self::Case) -> Option<&'a mut Vec<u8>> {
+        Some(&mut c.input.0)
+    }
     fn strategy(&self, _tier: Tier) -> BoxedStrategy<Case> {
         let per_format = |f: Format| {
             (
